@@ -148,14 +148,21 @@ func (k *KafkaSarama) inputMsg(topic string, mCh chan []byte, ec *uint64) {
 			break
 		}
 
-		select {
-		case k.producer.Input() <- &sarama.ProducerMessage{
+		pMsg := &sarama.ProducerMessage{
 			Topic: topic,
 			Value: sarama.ByteEncoder(msg),
-		}:
-		case err := <-k.producer.Errors():
-			k.logger.Println(err)
-			*ec++
+		}
+
+		// drain reported errors until the message has been handed over
+	SEND:
+		for {
+			select {
+			case k.producer.Input() <- pMsg:
+				break SEND
+			case err := <-k.producer.Errors():
+				k.logger.Println(err)
+				*ec++
+			}
 		}
 	}
 
